@@ -35,6 +35,7 @@ import Driver.GeomFix
 import Driver.FdWorld
 import Driver.Alac
 import Driver.AbsWrite
+import Driver.Small4
 open Sf
 
 def lawOf (s : String) : Option G711.Law :=
@@ -115,4 +116,5 @@ def main (args : List String) : IO UInt32 := do
   | "fdworld" :: _ => FdWorldDriver.cmd
   | "alac" :: rest => Driver.Alac.cmd rest
   | "abs-write" :: rest => AbsWriteDriver.cmd rest
+  | "small4" :: rest => Driver.Small4.cmd rest
   | _ => IO.eprintln "usage: sfmodel <g711|...> ..."; return 2
